@@ -164,6 +164,31 @@ fn exec(ctx: &mut Ctx, ev: &Ev, rng: &mut Rng) {
                 Outcome::Panicked(msg) => ctx.violate("no-panic", ev, "all", format!("Ecube::all panicked: {}", msg)),
             }
         }
+        "eiter-script" => {
+            // Iterator methods on Ecube::all(n) / vars(): ints = vars, xnor, which, 0, script pairs
+            use vmon::iterprobe as ip;
+            let m = e_at(ev, 0);
+            let which = ev.ints[2];
+            let (_, script) = ip::ints_to_script(&ev.ints[3..]);
+            let name = ["Ecube::all", "vars"][which as usize];
+            ctx.event(&format!("iter-script|{}", name), ev, true);
+            for k in ip::script_kinds(&script) {
+                ctx.cell_only(&format!("iter-method|{}|{}", k, name));
+            }
+            let r = guard(|| match which {
+                0 => ip::check_seq_script(&|| Ecube::all(n), &|c: &Ecube| vec![EcubeM::of(c).vars as u64 | ((EcubeM::of(c).xnor as u64) << 32)], &script),
+                _ => {
+                    let c = m.real();
+                    ip::check_seq_script(&|| c.vars(), &|v: &usize| vec![*v as u64], &script)
+                }
+            });
+            match r {
+                Outcome::Returned(Ok(k)) => ctx.checked("iter-methods-agree-with-sequence", k as u64),
+                Outcome::Returned(Err((i, msg))) => ctx.violate("iter-methods-agree-with-sequence", ev, name, format!(
+                    "{} (n={}, term vars={:#x} xnor={}): step {} of script [{}]: {}", name, n, m.vars, m.xnor, i, ip::describe_script(&script), msg)),
+                Outcome::Panicked(msg) => ctx.violate("no-panic", ev, "iter-script", format!("{} script [{}] panicked: {}", name, ip::describe_script(&script), msg)),
+            }
+        }
         "eimplies" => {
             let m = e_at(ev, 0);
             let mf = Model::from_blocks(n, &ev.tabs[0]);
@@ -309,6 +334,17 @@ fn main() {
                     }
                 }
                 exec(ctx, &Ev::new("eall", "Ecube", n), &mut rng);
+                // the enumeration and the variable lists read through Iterator methods other than next()
+                for r in 0..if thorough { 3000 } else { 200 } {
+                    let which = (r % 4 == 3) as u64;
+                    let src = if all.is_empty() { em(0, false) } else { *rng.pick(&all) };
+                    let len = if which == 0 { 2usize << n } else { src.vars.count_ones() as usize };
+                    let script = vmon::iterprobe::gen_seq_script(len, &mut rng);
+                    let mut e = ev_e("eiter-script", n, &[src]);
+                    e.ints.push(which);
+                    e.ints.extend(vmon::iterprobe::script_to_ints(false, &script));
+                    exec(ctx, &e, &mut rng);
+                }
                 for v in 0..n {
                     exec(ctx, &Ev::new("soes-ctor", "Soes", n).int(v), &mut rng);
                 }
@@ -422,6 +458,17 @@ fn main() {
                         exec(ctx, &Ev::new("eall", "Ecube", nn), &mut rng);
                     }
                 }
+                for r in 0..if thorough { 2000 } else { 100 } {
+                    let which = (r % 2) as u64;
+                    let nn = 5 + rng.below(8);
+                    let src = em(rng.next_u64() as u32, rng.bool());
+                    let len = if which == 0 { 2usize << nn } else { src.vars.count_ones() as usize };
+                    let script = vmon::iterprobe::gen_seq_script(len, &mut rng);
+                    let mut e = ev_e("eiter-script", if which == 0 { nn } else { 32 }, &[src]);
+                    e.ints.push(which);
+                    e.ints.extend(vmon::iterprobe::script_to_ints(false, &script));
+                    exec(ctx, &e, &mut rng);
+                }
             }
         }
     });
@@ -438,6 +485,14 @@ fn main() {
     }
     for n in 0..=5 {
         required.push(format!("eall|n={}", n));
+        if n == 0 {
+            for name in ["Ecube::all", "vars"] {
+                required.push(format!("iter-script|{}", name));
+                for k in ["nth", "skip.next", "step_by.take3", "take.count", "count", "last", "size_hint"] {
+                    required.push(format!("iter-method|{}|{}", k, name));
+                }
+            }
+        }
     }
     for n in 0..=3 {
         required.push(format!("eimplies|n={}", n));
